@@ -209,7 +209,11 @@ def refine(pts, rng, uneven=True):
     for (x0, y0), (x1, y1) in zip(pts, pts[1:]):
         out.append((x0, y0))
         k = rng.choice([0, 1, 3, 6]) if uneven else 1
-        for t in sorted(rng.uniform(0.05, 0.95) for _ in range(k)):
+        ts = [rng.uniform(0.05, 0.95) for _ in range(k)]
+        if uneven and rng.random() < 0.3:
+            # very dense sampling next to a vertex (a drawing exported with tiny segments): still the same polyline
+            ts += [rng.choice([1e-6, 1e-5, 5e-5]), 1 - rng.choice([1e-6, 1e-5, 5e-5])]
+        for t in sorted(ts):
             out.append((x0 + t * (x1 - x0), y0 + t * (y1 - y0)))
     out.append(pts[-1])
     return out
@@ -301,7 +305,7 @@ def spline_oracle(chk, pts, uw, g, rng):
     chk.cov['evaluations'] += 1
     zs = np.linspace(stored[0, 0] - 0.5, stored[-1, 0] + 0.5, 101)
     if (abs(g2.width - g.width) > 1e-9 or abs(g2.usable_width - g.usable_width) > 1e-9 or abs(g2.depth - g.depth) > 1e-9
-            or np.max(np.abs(g2.local_depth(zs) - g.local_depth(zs))) > 1e-9):
+            or np.max(np.abs(g2.local_depth(zs) - g.local_depth(zs))) > 2e-8):      # (segments of 1e-6 of an edge amplify rounding to about 2e-9)
         return chk.fail('spline-refinement', f"refining {pts} by collinear vertices ({len(fine)} vertices) changes the groove: width {g.width} -> {g2.width}, "
                         f"max depth-function deviation {np.max(np.abs(g2.local_depth(zs) - g.local_depth(zs))):.3g}", dict(data, refined=fine))
 
